@@ -127,6 +127,10 @@ def run(ctx):
                       'encrypted_payloads is filled only after the checksum comparison passed',
                       key=('U1', 'encrypted-payloads-unverified'), site=ctx.site(parse, n.ast))
 
+    # the comparison of U1 is over the whole ICV of the negotiated transform: its length comes from the Integrity table
+    from .c07 import icv_table
+    icv_table(ctx, 'U1')
+
     # ---------------------------------------------------------------- U2 part 1: post-condition of parse
     pm = ctx.func('ikesa.IkeSa.process_message')
     g5 = esc.add_exception_edges(pm)
@@ -309,6 +313,26 @@ def run(ctx):
     # a datagram that fails verification (it raises out of process_message) must not make the controller drop an IKE_SA that
     # already existed: a table entry is removed only when its IKE_SA is observed DELETED, or to undo this very event's registration
     common.deleted_observed(ctx, esc, 'U2')
+
+    # the controller has nothing to say to a datagram itself: whatever dispatch_message returns for it is what the IKE_SA's
+    # process_message - which verifies before it does anything (above) - returned for this very datagram, or nothing.  A reply
+    # produced on any other path (a cache keyed by the clear header, a canned answer) would be elicited without verification.
+    from ..sval import NONE, strip_ids
+    from .. import tq
+    dm = ctx.func('ikesacontroller.IkeSaController.dispatch_message')
+    DM = ctx.sval(dm)
+    pmc = DM.calls_to(qual='ikesa.IkeSa.process_message')
+    ctx.floor('U2 process_message call in dispatch_message', len(pmc), 1, rule='U2')
+
+    def leaves(t):
+        if t[0] == 'cond':
+            return leaves(t[2]) | leaves(t[3])
+        return {strip_ids(t)}
+    allowed = {strip_ids(c.term) for c in pmc} | {NONE}
+    rets = [(pc, t) for pc, t, _ in DM.returns]
+    odd = [tq.text(x, 160) for _, t in rets for x in leaves(t) if x not in allowed]
+    ctx.check(bool(rets) and not odd, 'U2', 'dispatch_message returns only what process_message returned for this datagram, or nothing',
+              key=('U2', 'controller-replies'), site=ctx.site(dm, dm.node), detail={'other replies': odd})
 
     # ---------------------------------------------------------------- U3
     lookups_checked = check_lookups(ctx, esc)
